@@ -22,7 +22,6 @@ import XzVerif.Model.LazyXz
 import XzVerif.Model.Src
 import XzVerif.Model.Writer1F
 import XzVerif.Model.Writer1G
-import XzVerif.Model.GoSrcRun
 /-
   driver — line protocol around the executable definitions of Spec and Model.
   One request per line on stdin, one reply line on stdout.  Core-only, so it links.
@@ -649,7 +648,6 @@ def handle (line : String) : String :=
   | ["lzmaops", h] =>
     let r := Lzma1.read 0 (unhex h)
     " ".intercalate (r.ops.toList.map opStr)
-  | "gosrc" :: rest => GoSrcRun.handle rest
   | _ => "bad-op"
 
 partial def loop (h : IO.FS.Stream) (out : IO.FS.Stream) : IO Unit := do
